@@ -470,6 +470,9 @@ def round3_rules(res, fx, fin, cd, reader):
                 held.add(sz['n'])
             elif sz['k'] == 'DeclRefExpr' and sz.get('d') is not None:
                 inits = [A.render_key(A.strip_casts(v['ch'][0])) for v in g.walk() if v['k'] == 'VarDecl' and v.get('d') == sz['d'] and v['ch']]
+                for v in g.walk():
+                    if v['k'] == 'VarDecl' and v.get('d') == sz['d'] and v['ch'] and A.strip_casts(v['ch'][0])['k'] == 'MemberExpr' and A.is_this_member(A.strip_casts(v['ch'][0])):
+                        held.add(A.strip_casts(v['ch'][0])['n'])       # a local copy of the member
                 for w in g.walk():
                     if w['k'] == 'BinaryOperator' and w.get('op') == '=':
                         l_ = A.strip_casts(w['ch'][0])
